@@ -22,6 +22,11 @@ P.not_decided.append('closedness (every right-hand-side name is defined, k, t or
                      '(known finding F5) and meaning preservation of Sector._CreateFinalEquations: bounded token scan in dyn/C05.py')
 P.replay_script = 'dyn/C05.py'
 
+# the three wrappers that carry the lookup down to every term text are verified here too (same contracts as in C13): a change that breaks
+# them breaks "no placeholder survives"
+for _w in (_c13.TERM_RTFL, _c13.EQ_RTFL, _c13.BLOCK_RTFL):
+    P.verify(_w)
+
 StrOfInt = z3.Function('py_str_int', z3.IntSort(), z3.StringSort())
 
 
